@@ -159,9 +159,12 @@ pub fn exec(w: &mut PairWorld, op: &POp) -> Outcome<AppResponse> {
         POp::BadFundsSwap { who, dir, declared, sent } => {
             let i = *dir as usize; let pair = w.pair.clone();
             let denom = match &w.assets[i] { white_whale_std::pool_network::asset::AssetInfo::NativeToken { denom } => denom.clone(), _ => DENOMS[3].to_string() };
+            // declared == attached marks the other malformation: the amounts agree, but the offer (and the coins) are in a denom that is the
+            // pool asset's name in UPPER CASE - a different bank denom, which is not the pool's asset
+            let (info, denom) = if sent == declared { (native(&denom.to_uppercase()), denom.to_uppercase()) } else { (w.assets[i].clone(), denom) };
             let funds = if *sent > 0 { vec![cosmwasm_std::coin(*sent, denom)] } else { vec![] };
             cw_multi_test::Executor::execute_contract(&mut w.app, cosmwasm_std::Addr::unchecked(ACCTS[*who]), pair,
-                &pair::ExecuteMsg::Swap { offer_asset: white_whale_std::pool_network::asset::Asset { info: w.assets[i].clone(), amount: Uint128::new(*declared) }, belief_price: None, max_spread: Some(dec(DEC / 2)), to: None }, &funds)
+                &pair::ExecuteMsg::Swap { offer_asset: white_whale_std::pool_network::asset::Asset { info, amount: Uint128::new(*declared) }, belief_price: None, max_spread: Some(dec(DEC / 2)), to: None }, &funds)
         }
         POp::BadFundsProvide { who, d0, d1, variant } => {
             if *variant == 0 {
@@ -466,7 +469,7 @@ pub fn gen_case(rng: &mut Rng, len: usize, bias: &Bias) -> PairCase {
                 4 | 5 => { let small = rng.chance(1, 2);
                            let d = if small { 1000 + rng.below128(100_000) } else { magnitude(rng, 60).max(1) };
                            POp::BadFundsProvide { who, d0: d, d1: if rng.chance(1, 2) { d } else { 1 + rng.below128(d.max(2)) }, variant: 1 + rng.below(4) as u8 } }
-                0 if !kinds[dirn as usize] => { let d = 1000 + rng.below128(1_000_000); POp::BadFundsSwap { who, dir: dirn, declared: d, sent: if rng.chance(1, 2) { d - 1 } else { d + 1 } } }
+                0 if !kinds[dirn as usize] => { let d = 1000 + rng.below128(1_000_000); POp::BadFundsSwap { who, dir: dirn, declared: d, sent: match rng.below(3) { 0 => d - 1, 1 => d + 1, _ => d } } }
                 1 if !kinds[0] || !kinds[1] => POp::BadFundsProvide { who, d0: 1000 + rng.below128(100_000), d1: 1000 + rng.below128(100_000), variant: 0 },
                 2 => POp::ForeignHookSwap { who, x: rng.below128(1_000_000) },
                 _ => POp::TokenViaNativeSwap { who, dir: dirn, x: rng.below128(1_000_000) },
@@ -649,6 +652,7 @@ pub fn threshold_corpus() -> Vec<PairCase> {
             ops.push(POp::BadFundsSwap { who: 2, dir, declared: 1_000_000, sent: 1_000_001 });
             ops.push(POp::BadFundsSwap { who: 2, dir, declared: 1_000_000, sent: 999_999 });
             ops.push(POp::BadFundsSwap { who: 3, dir, declared: 5_000, sent: 50_000 });
+            ops.push(POp::BadFundsSwap { who: 3, dir, declared: 700_000, sent: 700_000 });      // UPPER-CASE denom
         } }
         ops.extend(vec![
             POp::BadFundsProvide { who: 3, d0: 70_000, d1: 56_000, variant: 0 },
